@@ -387,3 +387,41 @@ for _p, _b, _N in SMALL_PRIME_ORDER:
                    bound="module constants P, N, A, B, G rebound to y^2 = x^3 + %d over GF(%d) (prime order %d): %s; exact bit-vectors (16 resp. 20 bits) with no-wrap side conditions"
                    % (_b, _p, _N, {"add": "add on EVERY pair of points incl. identity", "jacobian": "jacobian_add / jacobian_double on every pair and EVERY Jacobian representative",
                                    "multiply": "multiply for every point and EVERY scalar in [-N-2, 2N+3] (base cases 0, 1 and the recurrence (n+1)P = nP + P, which fixes the value for every n in the range)"}[_part]))(_mk_sm())
+
+
+@obligation("C18", "jacobian_add_case_split_on_integers", bound="affine operands (z = 1) with ALL integer coordinates in [0, P), y != 0: which of the three cases (doubling / inverse / chord) jacobian_add takes, decided over the integers (not only modulo P); QF_LIA")
+def jacobian_add_cases(rep, tier):
+    """the case analysis must be 'same abscissa' = equality of the reduced residues: a test that is merely implied by equality
+    (e.g. congruence modulo another constant) sends distinct points into the doubling / inverse branch."""
+    sp = mod(SP)
+    P = sp.P
+    rep.encoded(sp.jacobian_add)
+    seen = set()
+
+    def run(ctx):
+        x1, y1, x2, y2 = (SymZ.var(n_, 0, P - 1) for n_ in ("x1", "y1", "x2", "y2"))
+        ctx.assume(z3.And(y1.t != 0, y2.t != 0))
+        with world.patched(sp, jacobian_double=lambda p_: "DBL"):
+            r = sp.jacobian_add((x1, y1, 1), (x2, y2, 1))
+        return x1, y1, x2, y2, r
+
+    def on_path(pth):
+        rep.paths += 1
+        mdl = lambda m: {"kind": "c18_cases", "args": {k: str(m.eval(z3.Int(k), model_completion=True)) for k in ("x1", "y1", "x2", "y2")} if m is not None else {}}
+        if pth.kind != "ret":
+            g, m = pth.ctx.satisfiable()
+            if g != "unsat":
+                rep.fail("jacobian_add raised %r on affine operands" % (pth.value,), mdl(m))
+            return
+        x1, y1, x2, y2, r = pth.value
+        if isinstance(r, str) and r == "DBL":
+            case, goal = "doubling", z3.And(x1.t == x2.t, y1.t == y2.t)
+        elif isinstance(r, tuple) and len(r) == 3 and not isinstance(r[1], SymZ) and r[1] == 0:
+            case, goal = "inverse", z3.And(x1.t == x2.t, y1.t != y2.t)
+        else:
+            case, goal = "chord", x1.t != x2.t
+        seen.add(case)
+        g, m = pth.ctx.prove(goal)
+        require(rep, g, "jacobian_add takes the %s branch only when the operands are in that position (as integers in [0, P))" % case, pth.decisions, mdl(m))
+    core.explore(run, on_path=on_path, ctx_kwargs=dict(mul="uf"))
+    require(rep, seen == {"doubling", "inverse", "chord"}, "jacobian_add: doubling, inverse and chord branches all reachable on affine operands", None, {"kind": "c18_cases", "args": {}})
